@@ -88,7 +88,7 @@ fn from_hex<T: Deserial>(h: &str) -> T {
     v
 }
 
-pub const GROUPS: [&str; 6] = ["scalars", "transactions", "payloads", "updates", "credentials", "crypto"];
+pub const GROUPS: [&str; 9] = ["scalars", "transactions", "payloads", "updates", "credentials", "crypto", "misc", "statements", "web3v1"];
 
 pub fn run_group(ctx: &mut Tasks, group: &str) {
     match group {
@@ -98,6 +98,9 @@ pub fn run_group(ctx: &mut Tasks, group: &str) {
         "updates" => updates(ctx),
         "credentials" => crate::c05b::credentials(ctx),
         "crypto" => crate::c05b::crypto(ctx),
+        "misc" => crate::c05c::misc(ctx),
+        "statements" => crate::c05c::statements(ctx),
+        "web3v1" => crate::c05c::web3v1(ctx),
         g => mc_core::machinery_error(&format!("unknown C05 group {g}")),
     }
 }
